@@ -388,7 +388,7 @@ zif_open(const char *file)
 		return NULL;
 	} else if (fstat(fd, &st) < 0) {
 		goto cout;
-	} else if (st.st_size <= 20) {
+	} else if (st.st_size < (off_t)sizeof(struct zih_s)) {
 		goto cout;
 	}
 
@@ -403,15 +403,14 @@ zif_open(const char *file)
 	/* read hdr with undefined alignment */
 	hdr = map;
 	switch (hdr[offsetof(struct zih_s, tzh_version)]) {
-		const unsigned char *hds;
+		size_t hds;
 	case '2':
 		/*@fallthrough@*/
 	case '3':
-		hds = hdr;
 		tmp.nlp = RDU32(hdr + offsetof(struct zih_s, tzh_leapcnt));
 		tmp.ntr = RDU32(hdr + offsetof(struct zih_s, tzh_timecnt));
 		tmp.nty = RDU32(hdr + offsetof(struct zih_s, tzh_typecnt));
-		hds += sizeof(struct zih_s);
+		hds = sizeof(struct zih_s);
 		hds += tmp.ntr * 4U;
 		hds += tmp.ntr;
 		hds += tmp.nty * (4U + 1U + 1U);
@@ -420,10 +419,13 @@ zif_open(const char *file)
 		hds += RDU32(hdr + offsetof(struct zih_s, tzh_ttisstdcnt));
 		hds += RDU32(hdr + offsetof(struct zih_s, tzh_ttisgmtcnt));
 
-		if (UNLIKELY(memcmp(hds, TZ_MAGIC, 4U))) {
+		if (UNLIKELY(hds + sizeof(struct zih_s) > (size_t)st.st_size)) {
+			/* second header beyond the end of the file */
+			goto unmp;
+		} else if (UNLIKELY(memcmp(hdr + hds, TZ_MAGIC, 4U))) {
 			goto unmp;
 		}
-		hdr = hds;
+		hdr += hds;
 	case '\0':
 		tmp.nlp = RDU32(hdr + offsetof(struct zih_s, tzh_leapcnt));
 		tmp.ntr = RDU32(hdr + offsetof(struct zih_s, tzh_timecnt));
@@ -431,6 +433,17 @@ zif_open(const char *file)
 		break;
 	default:
 		goto unmp;
+	}
+	/* see that the file holds what the header promises */
+	with (size_t tsz = hdr[offsetof(struct zih_s, tzh_version)] ? 8U : 4U) {
+		size_t need = sizeof(struct zih_s) +
+			tmp.ntr * (tsz + 1U) + tmp.nty * (4U + 1U + 1U);
+
+		if (UNLIKELY(!tmp.nty)) {
+			goto unmp;
+		} else if ((size_t)(hdr - map) + need > (size_t)st.st_size) {
+			goto unmp;
+		}
 	}
 	/* alloc space, don't read leaps just transitions and types */
 	res = malloc(sizeof(*res) +
@@ -476,6 +489,13 @@ zif_open(const char *file)
 			res->ofs[i] = RDI32(beef + 6U * i);
 		}
 		break;
+	}
+	/* transitions must be to known types */
+	for (size_t i = 0U; i < tmp.ntr; i++) {
+		if (UNLIKELY(res->tys[i] >= tmp.nty)) {
+			free(res);
+			goto unmp;
+		}
 	}
 	/* clean up */
 	munmap(map, st.st_size);
